@@ -352,7 +352,11 @@ pub fn cleanup(tier: Tier, w: &Arc<World>) -> Scn {
             let step = 1 + d.range("swarm.c13.step", nblocks.min(30) + 1);
             match cause {
                 0 => {
-                    xc.script.push((step, Adv::Silent));
+                    if d.chance("swarm.c13.die_mid_window", 1, 2) {
+                        xc.die_after_blocks = Some(d.range("swarm.c13.die_after", nblocks.min(30) + 1) as u64);
+                    } else {
+                        xc.script.push((step, Adv::Silent));
+                    }
                     if d.chance("swarm.c13.icmp", 1, 2) {
                         w.lock().icmp = true;
                     }
